@@ -37,6 +37,12 @@ func Oracle(sc pairsim.Scenario, tr pairsim.Trace) *evid.Failure {
 // OracleAll returns every failure of the trace (at most one per rule and operation).
 func OracleAll(sc pairsim.Scenario, tr pairsim.Trace) (out []*evid.Failure) {
 	report := func(f *evid.Failure) { out = append(out, f) }
+	if tr.StreamStorm {
+		// no scenario needs 200000 writes in one direction of a stream (nothing is duplicated or
+		// retransmitted there): the endpoints were exchanging messages without making progress
+		report(evid.Failf("bw/stream-livelock", sc, "the exchange on the stream never made progress: a direction exceeded 200000 writes (an exchange that cannot complete must end with an error or a timeout, not spin)"))
+		return
+	}
 	if tr.Panic != "" {
 		report(evid.Failf("bw/panic", sc, "panic in scenario: %s", tr.Panic))
 		return
@@ -206,6 +212,7 @@ func gridEngine(t *testing.T) evid.Engine {
 			var wg sync.WaitGroup
 			var idx, done, total atomic.Int64
 			for w := 0; w < runtime.GOMAXPROCS(0); w++ {
+				w := w
 				wg.Add(1)
 				go func() {
 					defer wg.Done()
@@ -215,7 +222,9 @@ func gridEngine(t *testing.T) evid.Engine {
 							return
 						}
 						sc := scs[i]
+						r.SetCurrent("grid", w, sc)
 						tr := pairsim.Run(t, sc, false)
+						r.ClearCurrent(w)
 						if f := Oracle(sc, tr); f != nil {
 							f.Engine = "grid"
 							r.Fail(f)
